@@ -86,6 +86,9 @@ func init() {
 							return ok && desc(callArgs(cc)[0]) == alg
 						}}).MustReach(fn, sum)
 						R.decide("C10.e", key+":alg-whitelisted", "a hash is produced only for a whitelisted algorithm (checkHashAlg of the same algorithm succeeded before multihash.Sum)", r.Holds, r.Path, P.Pos(sum.Pos()))
+						// the digest is never truncated: length -1 (the algorithm's full length), as a constant here or in every caller
+						okLen, why := constInAllCallers(P, fn, callArgs(sum)[2], -1, 0)
+						R.decide("C10.e", key+":full-digest", "the event hash has the algorithm's full length (multihash.Sum(..., -1)): a length taken from a received hash lets a prefix compare equal", okLen, why, P.Pos(sum.Pos()))
 					}
 				}
 				R.decide("C10.e", "revocation:sum-sites", "the event hash is computed by multihash.Sum (>= 1 site)", n >= 1, fmt.Sprintf("%d", n), "")
@@ -523,4 +526,43 @@ func decodedProductRule(P *Program, R *Report, rule string) {
 		}
 	})
 	R.decide(rule, kELUncomp+":product-all", "every decoded event's E is multiplied into the product (loop over all indices from 0)", okMul, detail, P.Pos(fn.Pos()))
+}
+
+
+// constInAllCallers: v is the integer constant want, or a parameter of fn that every (static) caller binds to it,
+// transitively up to three levels.
+func constInAllCallers(P *Program, fn *ssa.Function, v ssa.Value, want int64, depth int) (bool, string) {
+	if c, ok := constInt(v); ok {
+		return c == want, fmt.Sprintf("constant %d", c)
+	}
+	if a, ok := affineOf(v); ok && a.isConst() {
+		return a.C == want, fmt.Sprintf("constant %d", a.C)
+	}
+	p, isParam := stripConv(v).(*ssa.Parameter)
+	if !isParam || depth > 3 {
+		return false, "not a constant: " + desc(v)
+	}
+	idx := -1
+	for i, q := range fn.Params {
+		if q == p {
+			idx = i
+		}
+	}
+	n := 0
+	for _, g := range P.AllFuncs {
+		for _, c := range callsTo(g, fn) {
+			n++
+			args := callArgsRaw(c)
+			if idx < 0 || idx >= len(args) {
+				return false, "caller " + FuncKey(g) + ": argument not found"
+			}
+			if ok, why := constInAllCallers(P, g, args[idx], want, depth+1); !ok {
+				return false, "caller " + FuncKey(g) + ": " + why
+			}
+		}
+	}
+	if n == 0 {
+		return false, "parameter of a function without static callers"
+	}
+	return true, fmt.Sprintf("%d callers pass the constant", n)
 }
